@@ -30,7 +30,7 @@ def run_calls(calls, hashseed=None):
     env["PYTHONDONTWRITEBYTECODE"] = "1"
     if hashseed is not None:
         env["PYTHONHASHSEED"] = str(hashseed)
-    p = subprocess.run(["/venv/bin/python", FRESH], input=json.dumps(calls).encode(), stdout=subprocess.PIPE,
+    p = subprocess.run(cli.py_cmd() + [FRESH], input=json.dumps(calls).encode(), stdout=subprocess.PIPE,
                        stderr=subprocess.PIPE, env=env, timeout=300)
     if p.returncode != 0:
         return ["PROCESS-FAILED %s" % p.stderr.decode()[-200:]] * len(calls)
